@@ -23,6 +23,7 @@ SIGNED = ('modularity_louvain_und_sign', 'modularity_finetune_und_sign', 'modula
 TAKES_START = FINETUNE + ('community_louvain',)
 DET_GAIN = LOUVAIN + FINETUNE + ('community_louvain',)
 ZERO = ('modularity_und', 'modularity_dir', 'modularity_und_sign')
+BOOL_OK = ('community_louvain', 'modularity_finetune_und', 'modularity_finetune_dir', 'modularity_und', 'modularity_dir')
 CROSS = {'und': ('modularity_louvain_und', 'modularity_finetune_und', 'community_louvain'), 'dir': ('community_louvain', 'modularity_finetune_dir'),
          'sign': ('modularity_louvain_und_sign', 'modularity_finetune_und_sign')}
 QTOL = 1e-8
@@ -151,6 +152,11 @@ def _q_layers(W0, W1, labels, g, qtype, s0, s1):
     return d[0] * part(W0, s0) - d[1] * part(W1, s1)
 
 
+def tol(W, base):
+    """'to floating-point accuracy' means the accuracy of the container the caller chose"""
+    return 2e-5 if W.dtype == np.float32 else base
+
+
 def judge_pair(routine, W, p, ci, q, tag=''):
     """C02 facts for one (partition, q) pair."""
     v = []
@@ -166,7 +172,7 @@ def judge_pair(routine, W, p, ci, q, tag=''):
         except Exception:
             v.append(('q_mismatch', tag + 'returned quality is not a number: %r' % (q,)))
             return v
-        if not (abs(qf - r) <= QTOL):
+        if not (abs(qf - r) <= tol(W, QTOL)):
             v.append(('q_mismatch', tag + 'returned q=%.12g but the modularity of the returned partition is %.12g (gamma=%s%s)' % (
                 qf, r, p.get('gamma', 1), ', qtype=' + p['qtype'] if 'qtype' in p else (', B=' + p['B'] if 'B' in p else ''))))
     return v
@@ -243,12 +249,12 @@ def execute(case, mode):
                         break
                 if refs:
                     q0, _ = start_q(routine, W, p, None)
-                    if refs[-1] < q0 - MONO_TOL:
+                    if refs[-1] < q0 - tol(W, MONO_TOL):
                         facts['C07'].append(('below_start', 'final level Q=%.12g below singletons Q=%.12g' % (refs[-1], q0)))
             elif routine in ZERO and start is not None:
                 ci, q = out
                 r = ref_q(routine, W, start, p)
-                if not abs(float(q) - r) <= QTOL:
+                if not abs(float(q) - r) <= tol(W, QTOL):
                     facts['C02'].append(('q_mismatch', 'given partition: returned q=%.12g, its modularity is %.12g' % (float(q), r)))
             else:
                 ci, q = out
@@ -256,14 +262,14 @@ def execute(case, mode):
                 if routine in DET_GAIN and M.valid_partition(ci, n) is None:
                     q0, ci0 = start_q(routine, W, p, start)
                     q1 = quality(routine, W, p, np.asarray(ci))
-                    if q1 is not None and q1 < q0 - MONO_TOL:
+                    if q1 is not None and q1 < q0 - tol(W, MONO_TOL):
                         facts['C07'].append(('below_start', 'returned partition has Q=%.12g, the starting partition had Q=%.12g' % (q1, q0)))
                     if out2 is not None:
                         ci2, q2v = out2
                         facts['C02'] += judge_pair(routine, W, p, ci2, q2v, tag='fed-back run: ')
                         if q1 is not None and M.valid_partition(ci2, n) is None:
                             q2 = quality(routine, W, p, np.asarray(ci2))
-                            if q2 < q1 - MONO_TOL:
+                            if q2 < q1 - tol(W, MONO_TOL):
                                 facts['C07'].append(('feedback_lowers', 'feeding the output back lowered Q from %.12g to %.12g' % (q1, q2)))
         except Exception as e:
             facts['C02'].append(('invalid_partition', 'return value could not be judged: %r' % (e,)))
@@ -366,6 +372,16 @@ def gen_case(sub, routines, scn_id, nmax=12):
         W = np.zeros((n, n))
         W[0, 1] = W[1, 0] = 2.0
         W[2, 3] = W[3, 2] = -1.0 if kind == 'sign' else 1.0
+    if kind != 'sign' and rnd.random() < 0.08:
+        # structureless networks (no partition beats one module): complete graph, star, complete bipartite
+        fam = rnd.choice(('complete', 'star', 'bipartite'))
+        W = np.zeros((n, n))
+        h = rnd.randint(1, n - 1)
+        for a in range(n):
+            for b in range(n):
+                if a != b and (fam == 'complete' or (fam == 'star' and (a == 0 or b == 0)) or (fam == 'bipartite' and ((a < h) != (b < h)))):
+                    W[a, b] = 1.0
+        lab = np.array([1 + (x % 2) for x in range(n)])
     if rnd.random() < 0.15 and p.get('B') != 'potts':
         for x in rnd.sample(range(n), rnd.randint(1, max(1, n // 3))):
             W[x, x] = float(rnd.randint(1, 3)) if weighted != 'float' else round(rnd.uniform(0.1, 1.0), 4)
@@ -394,9 +410,24 @@ def gen_case(sub, routines, scn_id, nmax=12):
             # start from ANOTHER optimiser's output for the same network and gamma: a local optimum of the true
             # objective, where a single wrong move lowers Q
             cross = rnd.choice(CROSS[kind])
+    r = rnd.random()
+    meta_f32 = False
+    if weighted != 'float' and r < 0.12:
+        W = W.astype(rnd.choice((np.int64, np.int32)))  # integer container
+    elif weighted is None and routine in BOOL_OK and kind != 'sign' and r < 0.22 and set(np.unique(W).tolist()) <= {0.0, 1.0}:
+        # boolean adjacency matrix - only for the routines that accept one on the unchanged tree (the Louvain and *_sign
+        # routines raise numpy's "boolean subtract/negative is not supported" TypeError at once: loud, outside every property)
+        W = W.astype(bool)
+    elif r > 0.95:
+        W = W.astype(np.float32)
+        meta_f32 = True
+    if W.dtype == bool and cross is not None and cross not in BOOL_OK:
+        cross = 'community_louvain'
+    if start is not None and rnd.random() < 0.2:
+        start = start.astype(float)  # labels held in a float vector, as MATLAB users pass them
     case = {'scn': scn_id, 'routine': routine, 'W': enc(W), 'params': p, 'seed': sub, 'policy': pick_policy(rnd), 'budget': 40000,
             'trace': None, 'start': enc(start) if start is not None else None, 'feedback': feedback, 'cross': cross,
-            'meta': {'n': n, 'kind': kind, 'k': k, 'onesign': onesign}}
+            'meta': {'n': n, 'kind': kind, 'k': k, 'onesign': onesign, 'f32': meta_f32}}
     return case
 
 
